@@ -44,7 +44,7 @@ def main():
                 s.add(a)
             s.add(z3.Not(leaf))
             r = s.check()
-            print("%-8s %s" % ("OK" if r == z3.unsat else str(r).upper(), " ".join(leaf.sexpr().split())[:260]))
+            print("%-8s %s" % ("OK" if r == z3.unsat else str(r).upper(), " ".join(leaf.sexpr().split())[:2600]))
 
 
 main()
